@@ -376,7 +376,6 @@ func runC02(res *Result, d *Driver, tier string, seed uint64) {
 	defer f.remove()
 	work := filepath.Join(f.root, "w")
 	dirForFd := filepath.Join(f.root, "a", "b")
-	under := func(p string) bool { return strings.HasPrefix(p, f.root) }
 	baseline := func() []string {
 		h := &c02Rec{}
 		runPtraceProbe(RunSpec{Script: "exit 0", Filter: tracingFilter(), Handler: h, WorkDir: work})
@@ -478,9 +477,12 @@ func runC02(res *Result, d *Driver, tier string, seed uint64) {
 			// the probe opens the directory first: it becomes descriptor 3 of the tracee
 			script = fmt.Sprintf("sys 257 fdcwd64 s:%s %d 0; ", dirForFd, unix.O_RDONLY|unix.O_DIRECTORY) + script
 		}
+		nAsked := 0
 		h := &c02Rec{allow: func(class, p string) bool {
-			// nothing under the forest is touched except opening the descriptor directory read-only
-			return !under(p) || (class == "R" && p == dirForFd)
+			// only the launch's own calls (the same in every run) and opening the descriptor directory read-only execute;
+			// every other trapped call is banned, wherever its path points (generated names may leave the forest)
+			nAsked++
+			return nAsked <= len(baseline) || (class == "R" && p == dirForFd)
 		}}
 		r, out := runPtraceProbe(RunSpec{Script: script, Filter: tracingFilter(), Handler: h, WorkDir: work})
 		key := fmt.Sprintf("%s enc=%s p1=%s p2=%s flags=%#x howbad=%v", sc.name, enc, p1, p2, flags, howBad)
@@ -537,7 +539,8 @@ func runC02(res *Result, d *Driver, tier string, seed uint64) {
 		{"/proc/self/root" + f.root + "/x/y", filepath.Join(f.root, "x", "y")},
 		{"/proc/./self/../self/cwd/d", filepath.Join(work, "d")},
 	} {
-		h := &c02Rec{allow: func(class, p string) bool { return !under(p) }}
+		nAsked2 := 0
+		h := &c02Rec{allow: func(class, p string) bool { nAsked2++; return nAsked2 <= len(baseline) }}
 		r, out := runPtraceProbe(RunSpec{Script: fmt.Sprintf("sys 257 fdcwd32 s:%s 0 0; exit 0", c.path), Filter: tracingFilter(), Handler: h, WorkDir: work})
 		got := stripPrefixCalls(h.calls, baseline)
 		res.Case("procalias "+c.path, true, "traced-proc-alias")
